@@ -16,16 +16,19 @@ import (
 
 // known-finding ids (see /verif/findings.d/c13.json)
 const (
-	fCond  = "C13-func-in-condition"                        // funcmap functions are invisible to v-if / v-else-if / v-show
-	fNest  = "C13-func-under-operator"                      // funcmap functions cannot be called inside an operator expression
-	fErrC  = "C13-func-error-in-condition"                  // failing function call in a condition is swallowed
-	fBNeg  = "C13-bare-negation"                            // {{ !x }} / :a="!x" print nothing
-	fShowN = "C13-vshow-negation-nonbool"                   // v-show="!z" hides for falsy non-bool z while v-if="!z" shows
-	fQVar  = "C13-quoted-arg-reinterpreted"                 // f("a") passes the value of variable a; " x " -> "x"; "'q'" -> q
-	fWhole = "C13-whole-expression-call-bypasses-evaluator" // {{ upper(lower(h)) }} prints LOWER(H), {{ max(a, b) }}: function not found
-	fTagEl = "C13-tagged-field-of-slice-element"            // team[0].age + 1 fails where team is a slice of structs with JSON tags
-	fNegEr = "C13-func-error-after-leading-negation"        // {{ !t || fail(a) }} prints a value instead of failing
-	fBoolN = "C13-arg-variable-named-like-bool"             // f(t) / f(f): a variable named t or f is read as the literal true / false
+	fCond   = "C13-func-in-condition"                        // funcmap functions are invisible to v-if / v-else-if / v-show
+	fNest   = "C13-func-under-operator"                      // funcmap functions cannot be called inside an operator expression
+	fErrC   = "C13-func-error-in-condition"                  // failing function call in a condition is swallowed
+	fBNeg   = "C13-bare-negation"                            // {{ !x }} / :a="!x" print nothing
+	fShowN  = "C13-vshow-negation-nonbool"                   // v-show="!z" hides for falsy non-bool z while v-if="!z" shows
+	fQVar   = "C13-quoted-arg-reinterpreted"                 // f("a") passes the value of variable a; " x " -> "x"; "'q'" -> q
+	fWhole  = "C13-whole-expression-call-bypasses-evaluator" // {{ upper(lower(h)) }} prints LOWER(H), {{ max(a, b) }}: function not found
+	fPipeIn = "C13-call-as-pipe-input-swallows-error"        // {{ safe(bad) | upper }} renders empty, {{ add(1) | string }} prints <nil>
+	fInnerB = "C13-registered-builtin-name-nested-in-call"   // isBig(sum(a, 1, b)) with a registered sum does not compile
+	fInnerU = "C13-unknown-function-nested-in-call"          // v-if="upper(nosuch(s))" is silently false
+	fTagEl  = "C13-tagged-field-of-slice-element"            // team[0].age + 1 fails where team is a slice of structs with JSON tags
+	fNegEr  = "C13-func-error-after-leading-negation"        // {{ !t || fail(a) }} prints a value instead of failing
+	fBoolN  = "C13-arg-variable-named-like-bool"             // f(t) / f(f): a variable named t or f is read as the literal true / false
 )
 
 type gen struct {
@@ -55,7 +58,7 @@ func (g *gen) paths(t *rapid.T, base, fnNamed []string) []string {
 func newGen(rec *ev.Rec) *gen {
 	f := kf.Load()
 	g := &gen{rec: rec, open: map[string]bool{}}
-	for _, id := range []string{fCond, fNest, fErrC, fBNeg, fShowN, fQVar, fBoolN, fNegEr, fTagEl, fWhole} {
+	for _, id := range []string{fCond, fNest, fErrC, fBNeg, fShowN, fQVar, fBoolN, fNegEr, fTagEl, fWhole, fPipeIn, fInnerU, fInnerB} {
 		g.open[id] = f.Open(id)
 	}
 	return g
@@ -100,7 +103,9 @@ func isEnvName(s string) bool {
 
 var (
 	intLits   = []string{"0", "1", "2", "3", "7", "10", "20", "-3"}
-	floatLits = []string{"0.5", "1.5", "2.5", "0.25", "2.0", "10.0", "0.0"}
+	floatLits = []string{"0.5", "1.5", "2.5", "0.25", "2.0", "10.0", "0.0", "1e3", "-3.0"}
+	// whole numbers spelled as floats: float64 in every position, never int
+	wholeFloatLits = []string{"2.0", "10.0", "1e3", "0.0", "-3.0"}
 	// harmless alphanumerics; "s", "a", "h" are also variable names (the quoted literal must
 	// still mean the text)
 	strLits      = []string{"abc", "x", "Hello", "zz9", "Mid", "bob", "s", "a", "h"}
@@ -190,7 +195,7 @@ func call(f string, a ...Expr) Expr { return Expr{K: "call", V: f, A: a} }
 var callsOf = map[string][][]string{
 	"int":    {{"abs", "int"}, {"max", "int", "int"}, {"min", "int", "int"}, {"first", "intlist"}, {"last", "intlist"}, {"incp", "*int"}, {"addp", "*int", "int"}, {"len", "list"}, {"len", "string"}, {"len", "map"}, {"int", "numstr"}, {"int", "int"}, {"add", "int", "int"}, {"sum", "int", "int", "int"}},
 	"float":  {{"abs", "float"}, {"half", "float"}, {"scale", "float", "float"}},
-	"string": {{"first", "strlist"}, {"last", "strlist"}, {"fmtDate", "*time"}, {"upp", "*string"}, {"pname", "*rec"}, {"typ", "*any"}, {"upper", "string"}, {"lower", "string"}, {"trim", "string"}, {"string", "int"}, {"string", "fracfloat"}, {"string", "string"}, {"greet", "string"}, {"ctxup", "string"}, {"title", "lowstr"}, {"pick", "bool", "string", "string"}},
+	"string": {{"first", "strlist"}, {"last", "strlist"}, {"fmtDate", "*time"}, {"upp", "*string"}, {"pname", "*rec"}, {"typ", "*any"}, {"typ", "anyval"}, {"kinds", "anyval", "anyval"}, {"divide", "numval", "numval"}, {"upper", "string"}, {"lower", "string"}, {"trim", "string"}, {"string", "int"}, {"string", "fracfloat"}, {"string", "string"}, {"greet", "string"}, {"ctxup", "string"}, {"title", "lowstr"}, {"pick", "bool", "string", "string"}},
 	"bool":   {{"isBig", "int"}, {"neg", "bool"}},
 }
 
@@ -232,6 +237,8 @@ func (g *gen) callExpr(t *rapid.T, typ string, nonShared, top bool) Expr {
 			e.A = append(e.A, p("ss"))
 		case "*time", "*int", "*string", "*rec":
 			e.A = append(e.A, Expr{K: "path", V: pick(t, "ptrpath", ptrPaths[pt])})
+		case "anyval", "numval": // type-sensitive functions: literal spellings and typed paths
+			e.A = append(e.A, g.anyVal(t, pt == "numval"))
 		case "*any": // the type-identity function over any pointer path
 			e.A = append(e.A, Expr{K: "path", V: pick(t, "ptrpath", ptrPaths[pick(t, "ptrtype", ptrTypeOrder)])})
 		default:
@@ -245,6 +252,30 @@ func (g *gen) callExpr(t *rapid.T, typ string, nonShared, top bool) Expr {
 		}
 	}
 	return e
+}
+
+// anyVal draws an argument for an `any` parameter of a type-sensitive function: int- and
+// float-spelled literals (a whole number spelled 2.0 stays a float64), strings, bools, paths.
+func (g *gen) anyVal(t *rapid.T, numeric bool) Expr {
+	switch rapid.IntRange(0, 5).Draw(t, "anyval") {
+	case 0, 1:
+		return Expr{K: "float", V: pick(t, "wholef", wholeFloatLits)}
+	case 2:
+		return Expr{K: "int", V: pick(t, "ilit", []string{"1", "2", "7", "10", "-3"})}
+	case 3:
+		return Expr{K: "float", V: pick(t, "fraclit", []string{"0.5", "2.5"})}
+	case 4:
+		if !numeric {
+			if rapid.IntRange(0, 1).Draw(t, "strbool") == 0 {
+				return Expr{K: "str", V: pick(t, "plain", []string{"abc", "x1"}), Q: pick(t, "q", []string{"d", "s"})}
+			}
+			return Expr{K: "bool", V: pick(t, "blit", []string{"true", "false"})}
+		}
+	}
+	if g.cat != nil {
+		return Expr{K: "path", V: pick(t, "numpath", append(append([]string{}, g.c().nonzeroInts...), g.c().nonzeroFloats...))}
+	}
+	return Expr{K: "path", V: pick(t, "numpath", []string{"a", "b", "m.inner.x", "g", "m.rate", "us[1].age"})}
 }
 
 // expr builds a tree of static type typ and depth <= d. top marks the root: no bare literal
@@ -456,6 +487,9 @@ func (g *gen) genExprCase0(t *rapid.T) Case {
 	typ := pick(t, "type", []string{"bool", "bool", "bool", "int", "int", "float", "string", "string"})
 	d := pick(t, "depth", []int{0, 1, 1, 2, 2, 2, 3, 3, 3, 3})
 	e := g.expr(t, env, typ, d, true)
+	if rapid.IntRange(0, 11).Draw(t, "rootparen") == 0 {
+		e = Expr{K: "paren", A: []Expr{e}} // (x) as the whole expression
+	}
 	c, ok := g.finishExpr(Case{Fam: "expr", Env: envID, E: &e})
 	if !ok {
 		// no position left (e.g. !isBig(a) while both findings are open): use the operand
@@ -475,6 +509,7 @@ var pipeInits = []string{
 	"f", "g", "zf", "m.rate", "fs[0]", "st.Score",
 	"z10", "z08", "z007", "z0s", "sp", "sp2", "spl", "spt",
 	`errs['user[email]']`, `errs["tags[]"]`, `errs['a.b']`, `errs['two words']`, `errs["it's"]`, `errs['say "hi"']`, `errs['item[0][id]']`, `errs['sub[x]'].s`, `errs["sub[x]"]["n"]`, `errs['ok[]']`, `errs['sub[x]']`,
+	"xs[ix]", "ss[ix]", "m[kk]", "us[ix].name", "m[kb]",
 	"post.PublishedAt", "pt.at", "ts", "post.Views", "pm.k", `pm['k']`, "ptrs[1]", "pi", "post.Slug", "post.Author", "prec",
 	"s", "h", "e", "num", "pad", "m.name", `m["name"]`, `m['name']`, "m.inner.s", "ss[0]", "st.Name", "st.In.S", "us[0].name",
 	"t", "u", "m.ok", "bs[0]", "st.Ok",
@@ -604,7 +639,7 @@ func (g *gen) argFor(t *rapid.T, pt string) Arg {
 	case 2:
 		return Arg{K: "int", V: pick(t, "ilit", intLits)}
 	case 3:
-		return Arg{K: "float", V: pick(t, "flit", []string{"1.5", "0.25"})}
+		return Arg{K: "float", V: pick(t, "flit", append([]string{"1.5", "0.25"}, wholeFloatLits...))}
 	case 4:
 		return Arg{K: "bool", V: pick(t, "blit", []string{"true", "false"})}
 	}
@@ -836,14 +871,57 @@ func (g *gen) genErrCase(t *rapid.T) Case {
 		c.Stages = []Stage{bad}
 	} else {
 		c.Stages = append(prefix, bad)
-		if rapid.IntRange(0, 2).Draw(t, "suffix") == 0 {
+		// what follows the failing stage is never reached: a harmless stage, or a SECOND fault
+		// (unknown name, wrong argument count, a function that would return an error)
+		switch rapid.IntRange(0, 5).Draw(t, "suffix") {
+		case 0:
 			c.Stages = append(c.Stages, Stage{F: pick(t, "sfx", []string{"upper", "typ", "string"})})
+		case 1, 2:
+			c.Stages = append(c.Stages, secondFault(bad.F, rapid.IntRange(0, 9).Draw(t, "fault2")))
+		case 3:
+			c.Stages = append(c.Stages, Stage{F: pick(t, "sfx", []string{"upper", "lower"})}, secondFault(bad.F, rapid.IntRange(0, 9).Draw(t, "fault2")))
 		}
 	}
 	c.Pos = g.errPositions(callForm)
 	if callForm {
-		c.Wrap, c.WrapX = wrapFor(env, pick(t, "wrap", []string{"", "", "not", "notparen", "or", "and"}), rapid.IntRange(0, 9).Draw(t, "wrapx"))
+		c.Wrap, c.WrapX = wrapFor(env, pick(t, "wrap", []string{"", "", "not", "notparen", "or", "and", "inner", "innerop", "pipein"}), rapid.IntRange(0, 9).Draw(t, "wrapx"))
+		c = g.finishErrForm(c, rapid.IntRange(0, 9).Draw(t, "formk"))
 		c.Pos = g.wrapPositions(c)
+	}
+	return c
+}
+
+var innerOuters = []string{"upper", "len", "isBig", "greet", "string", "typ"}
+
+// finishErrForm completes the inner / innerop / pipein forms and drops them where an open
+// finding covers them (the plain call form is used instead).
+func (g *gen) finishErrForm(c Case, k int) Case {
+	switch c.Wrap {
+	case "inner", "innerop":
+		c.WrapX = innerOuters[k%len(innerOuters)]
+		if c.WrapX == c.ErrFn {
+			c.WrapX = "upper"
+		}
+		if c.Why == "unknown" && g.open[fInnerU] {
+			g.excluded(fInnerU)
+			c.Wrap, c.WrapX = "", ""
+		}
+		if c.ErrFn == "sum" && g.open[fInnerB] {
+			// sum is registered AND a predicate built-in of the expression library
+			g.excluded(fInnerB)
+			c.Wrap, c.WrapX = "", ""
+		}
+	case "pipein":
+		c.Wrap = ""
+		if g.open[fPipeIn] {
+			g.excluded(fPipeIn)
+			return c
+		}
+		c.Stages = append(c.Stages, Stage{F: []string{"upper", "string", "typ"}[k%3]})
+		if k%2 == 0 {
+			c.Stages = append(c.Stages, secondFault(c.ErrFn, k))
+		}
+		c.Pos = pipePos // pipes are documented for {{ }} and attributes
 	}
 	return c
 }
@@ -856,6 +934,18 @@ func (g *gen) wrapPositions(c Case) []string {
 		return without(c.Pos, valuePos...)
 	}
 	return c.Pos
+}
+
+// secondFault is a stage that would fail itself if it were ever reached (never named like first).
+func secondFault(first string, k int) Stage {
+	opts := []Stage{{F: "nosuch"}, {F: "zzFilter", A: []Arg{{K: "int", V: "1"}}}, {F: "missingFn"}, {F: "fails"}, {F: "add"}, {F: "greet", A: []Arg{{K: "str", V: "x", Q: "d"}}},
+		{F: "failif", A: []Arg{{K: "bool", V: "true"}}}, {F: "isBig", A: []Arg{{K: "int", V: "1"}, {K: "int", V: "2"}}}}
+	for i := 0; i < len(opts); i++ {
+		if o := opts[(k+i)%len(opts)]; o.F != first {
+			return o
+		}
+	}
+	return opts[0]
 }
 
 var errWraps = []string{"not", "notparen", "or", "and"}
@@ -985,6 +1075,8 @@ func classify(c Case) (bool, []string) {
 					if strings.HasPrefix(x.V, "editor.") || strings.HasPrefix(x.V, "team[2]") {
 						k = "A:path-struct-root second reference to a shared pointer"
 					}
+				case strings.Contains(x.V, "[ix]") || strings.Contains(x.V, "[k"):
+					k = "A:path-computed-step"
 				case strings.HasPrefix(x.V, "errs["):
 					k = "A:path-quoted-key with ] [ . blank or quote"
 				case contains(blankPaths, x.V):
@@ -1093,8 +1185,24 @@ func classify(c Case) (bool, []string) {
 			form = "call"
 		}
 		cls = append(cls, "C:"+c.Why, "C:form="+form, fmt.Sprintf("C:stages=%d", len(c.Stages)))
+		if !c.Call {
+			for i, st := range c.Stages {
+				if st.F == c.ErrFn && i+1 < len(c.Stages) {
+					last := c.Stages[len(c.Stages)-1].F
+					if f, ok := funcs[last]; !ok {
+						cls = append(cls, "C:second fault to the right: unknown function")
+					} else if _, stt, _ := f.apply(append([]any{1}, argValues(c.Stages[len(c.Stages)-1].A, envOf(c.Env))...)); stt == convArity || last == "fails" || last == "failif" {
+						cls = append(cls, "C:second fault to the right: failing function")
+					}
+					break
+				}
+			}
+		}
 		if c.Wrap != "" {
-			cls = append(cls, "C:under "+map[string]string{"not": "!f()", "notparen": "!(f())", "or": "!x || f()", "and": "!x && f()"}[c.Wrap], "C:"+c.Why+" under operator")
+			cls = append(cls, "C:under "+map[string]string{"not": "!f()", "notparen": "!(f())", "or": "!x || f()", "and": "!x && f()", "inner": "g(f())", "innerop": "g(f()) == lit"}[c.Wrap], "C:"+c.Why+" under operator")
+		}
+		if c.Call && len(c.Stages) > 1 {
+			cls = append(cls, "C:failing call as pipe input")
 		}
 		if c.Why == "conversion" {
 			txt := c.Text()
